@@ -130,6 +130,22 @@ def family_mapping(rnd, tier):
     rl = tree("real", {"a": "F1", "sd": {"b": "F2"}}) + [E("ln", "link", "real")] + tree("d", {"real": {"a": "G1", "keep": "F7"}, "other": "F8"}) + [E("by", "file", "F6")]
     n += 1; out.append(SC("map-rootlink-rel-populated-%d" % n, rl, ["ln"], "d", cls="mapping"))
     n += 1; out.append(SC("map-rootlink-rel-populated-slash-%d" % n, rl, ["ln"], "d/", cls="mapping"))
+    # an entry of another kind already sits at the mapped path (left by an earlier copy made when the name meant something else)
+    conflicts = {
+        "emptydir-onto-file": ({"e": {}, "a": "F1"}, {"e": "G1"}),
+        "emptydir-onto-dangling": ({"e": {}, "a": "F1"}, {"e": ("link", "nowhere")}),
+        "emptydir-onto-fifo": ({"e": {}, "a": "F1"}, {"e": ("fifo",)}),
+        "dir-onto-file": ({"e": {"x": "F2"}}, {"e": "G1"}),
+        "file-onto-dir": ({"e": "F1"}, {"e": {"k": "G1"}}),
+        "link-onto-dir": ({"e": ("link", "a"), "a": "F1"}, {"e": {}}),
+        "fifo-onto-dir": ({"e": ("fifo",)}, {"e": {"k": "G1"}}),
+        "link-onto-file": ({"e": ("link", "a"), "a": "F1"}, {"e": "G1"}),
+    }
+    for cname, (sshape, dshape) in conflicts.items():
+        n += 1
+        out.append(SC("map-conflict-%s-%d" % (cname, n), tree("s", sshape) + tree("d", {"s": dshape, "keep": "F7"}) + [E("by", "file", "F6")], ["s"], "d", cls="mapping"))
+        n += 1
+        out.append(SC("map-conflictT-%s-%d" % (cname, n), tree("s", sshape) + tree("d", dict(dshape, keep="F7")) + [E("by", "file", "F6")], ["s"], "d", T=True, cls="mapping"))
     # glob-selected sources
     g = tree("s", {"a.txt": "F1", "b.txt": "F2", "c.dat": "F3", "sub": {"x.txt": "F4"}}) + [E("d", "dir")]
     n += 1; out.append(SC("map-glob-%d" % n, g, ["s/a.txt", "s/b.txt"], "d", r=False, glob=["s/*.txt"], cls="mapping"))
@@ -371,6 +387,8 @@ def family_reject(rnd, tier):
     # glob: malformed pattern, pattern matching nothing among valid ones
     out.append(SC("rej-glob-malformed", good + [E("d", "dir")], ["g1"], "d", r=False, glob=["g1", "g***"], cls="reject-glob"))
     out.append(SC("rej-glob-nomatch", good + [E("d", "dir")], ["g1"], "d", r=False, glob=["g1", "nomatch*"], cls="reject-glob"))
+    out.append(SC("rej-glob-dir-norec", good + [E("d", "dir")], ["g1", "g2", "gd"], "d", r=False, glob=["g?"], cls="reject"))
+    out.append(SC("rej-glob-dir-norec-populated", good + dstates["populated"], ["gd"], "d", r=False, glob=["gd*"], cls="reject"))
     out.append(SC("rej-glob-nomatch-first", good + [E("d", "dir")], ["g1"], "d", r=False, glob=["nonexist.txt", "g1"], cls="reject-glob"))
     return out
 
@@ -545,7 +563,7 @@ def model_check(scenarios, workers=8, timeout=1200, cfg="MC_NS.cfg"):
     return r
 
 # ------------------------------------------------------------------ kill / fault campaigns (strace as driver)
-MUTATING = "openat,ftruncate,copy_file_range,fchmod,utimensat,fchown,fsetxattr,fsync,rename,mkdir,symlink,mknodat,unlink,write,pwrite64,close"
+MUTATING = "statx,newfstatat,openat,ftruncate,copy_file_range,fchmod,utimensat,fchown,fsetxattr,fsync,rename,mkdir,symlink,mknodat,unlink,write,pwrite64,close"
 
 def profile(binary, sc, driver, workers=2):
     """Fault-free traced run -> per-thread count of each traced syscall: {sys: max count in one thread}, total max per thread."""
